@@ -12,6 +12,8 @@ DECIDING = ["O1:fidelity", "O1:trace_distance", "O1:hilbert_schmidt", "O1:hs_inn
 RULE = ("pairs (and triples) of density operators of dimension 2..6, every rank, real and complex: generic, pure, commuting, orthogonal-support, identical and "
         "nearly equal (|rho - sigma| ~ 1e-6) pairs; signature (monitor, d, rank class, field, pair class); non-trivial when the pair is not identical; plus integer-dtype basis projectors and one array "
         "object passed as both arguments (values and rejections)")
+THOROUGH_REPEAT = 3  # the thorough tier runs its randomised case kinds this many times (new inputs each time)
+THOROUGH_REPEAT_SKIP = ("fos",)
 ASSUMPTIONS = [
     "documented formulas recomputed with Hermitian eigendecompositions (never sqrtm): fidelity = root fidelity |sqrt(rho) sqrt(sigma)|_1 as documented, "
     "bures_angle = arccos sqrt F, helstrom_holevo = 1/2 + 1/4 |rho - sigma|_1 as documented",
